@@ -278,9 +278,15 @@ class ModeDReader(MeterReaderBase[DataReadout]):
         """
         readouts_received: list[DataReadout] = []
 
-        if len(self._buffer) > 8191:
+        # Bytes consumed by earlier calls are never read again. Drop them, so that only data still
+        # waiting to be parsed (an unfinished line and the readout being collected) counts below.
+        self._buffer.trim_buffer_to_current_position()
+
+        if len(self._buffer) + len(self._raw_data) > 8191:
+            # A line or a readout that never ends. Discard it and hunt for the next readout.
+            self._buffer = _ReaderBuffer()
+            self._raw_data.clear()
             self._is_int_hunt_mode = True
-            self._buffer.trim_buffer_to_flag_or_end()
 
         self._buffer.extend(data_chunk)
 
